@@ -333,143 +333,6 @@ pub mod verif
     crate::step_harness!(step_resolve_phase_1t, 4, { step_resolve_phase(1); });
     crate::step_harness!(step_resolve_phase_2t, 4, { step_resolve_phase(2); });
 
-    /*  rebuild_node from any state under I1/I3.  The rule history may or may not have an entry for
-        the sources hash, and the entry need NOT agree with what the command produces now (C17's
-        scenario); when it agrees (or is absent) the C01 post-condition must hold.  RuleHistory::insert
-        is replaced by its contract model (the real insert + compare are decided on their own in
-        unit_history_insert): with the real one in place CBMC runs out of memory. */
-    fn step_rebuild_phase_m(ntargets : usize)
-    {
-        use crate::history::verif_insert_model as im;
-        let mut raw = any_raw();
-        let pre = prestate::decode(&mut raw, ntargets, Clock::Distinct, false);
-        install(&pre);
-        let other_before = fs().ws[2];
-        unsafe
-        {
-            im::EXPECT_SOURCE_BYTE = 1;
-            im::EXPECT_LEN = ntargets;
-            im::EXPECT_CONTENT = pre.out;
-            im::HAS_ENTRY = pre.has_history;
-            im::ENTRY_CONTENT = pre.remembered;
-        }
-        let h = history_of(&pre);
-        let blob = blob_of(&pre);
-        let mut sys = SymSystem {};
-        let r = rebuild_node(&mut sys, h, sources_ticket(), vec![String::from("x")], blob);
-        let f = fs();
-        assert!(f.n_exec == 1, "[C02][C20] rebuilding did not run the command exactly once");
-        assert!(f.n_renames == 0 && f.n_creates == 0 && f.n_chmods == 0, "[C08][C09] rebuilding moved or created files itself");
-        assert!(f.ws[2] == other_before, "[C09] an out-of-scope file changed");
-        assert!(unsafe { im::CALLS } == 1, "[C01][C02] a successful command's outputs were not recorded exactly once");
-        assert!(unsafe { im::ARG_OK }, "[C01][C02][C17] what is recorded in the rule history is not (current sources hash -> true hashes of the targets)");
-        let mut differs = [false; 2];
-        let mut any_differs = false;
-        let mut i = 0;
-        while i < ntargets
-        {
-            if pre.has_history && pre.remembered[i] != pre.out[i]
-            {
-                differs[i] = true;
-                any_differs = true;
-            }
-            i += 1;
-        }
-        match r
-        {
-            Ok(result) =>
-            {
-                kani::cover!(true, "rebuild Ok reachable");
-                assert!(!any_differs, "[C17] command output contradicts the recorded output for identical sources but the build succeeded");
-                let mut i = 0;
-                while i < ntargets
-                {
-                    assert!(f.ws[i].present && f.ws[i].content == pre.out[i],
-                        "[C01] rebuild succeeded but a target does not hold what the command produces");
-                    assert!(result.file_state_vec.get_ticket(i) == ticket_of_content(pre.out[i]),
-                        "[C01][C03][C18] hash handed to dependents after a rebuild is not the hash of the target's content");
-                    let st = crate::blob::verif::blob_state(&result.blob, i);
-                    assert!(st.ticket == ticket_of_content(pre.out[i]) && st.timestamp == 1_000_000u64 * ((if i == 0 { pre.fresh } else { pre.fresh2 }) as u64),
-                        "[C18][C07][C01] file-state table entry written back after a rebuild is not (hash, mtime) of the new file");
-                    assert!(st.executable == f.ws[i].exec, "[C10] file-state table entry does not record the executable bit");
-                    i += 1;
-                }
-                assert!(result.rule_history.is_some(), "[C02] rebuild returned no history");
-                match result.work_option
-                {
-                    WorkOption::CommandExecuted(_) => {},
-                    _ => assert!(false, "[C20] command ran but the result does not say so"),
-                }
-                std::mem::forget(result);
-            },
-            Err(WorkError::Contradiction(paths)) =>
-            {
-                kani::cover!(true, "Contradiction reachable");
-                assert!(any_differs, "[C17][C04] contradiction reported although the outputs equal the recorded ones");
-                let mut expect = 0;
-                let mut i = 0;
-                while i < ntargets
-                {
-                    if differs[i] { expect += 1; }
-                    i += 1;
-                }
-                assert!(paths.len() == expect, "[C17] contradiction error does not name exactly the differing targets");
-                let mut k = 0;
-                let mut i = 0;
-                while i < ntargets
-                {
-                    if differs[i]
-                    {
-                        if k < paths.len()
-                        {
-                            assert!(paths[k].as_bytes().len() == 1 && paths[k].as_bytes()[0] == b'a' + i as u8,
-                                "[C17] contradiction error names the wrong target");
-                        }
-                        k += 1;
-                    }
-                    i += 1;
-                }
-                std::mem::forget(paths);
-            },
-            Err(e) =>
-            {
-                assert!(false, "[C04] rebuild failed although the command succeeded and produced every target");
-                std::mem::forget(e);
-            },
-        }
-    }
-
-
-    #[kani::proof]
-    #[kani::unwind(4)]
-    #[kani::stub(crate::ticket::Ticket::human_readable, crate::ticket::verif::hr_stub)]
-    #[kani::stub(alloc::fmt::format, crate::stubs::format_stub)]
-    #[kani::stub(crate::system::util::get_timestamp, crate::symsys::get_timestamp_stub)]
-    #[kani::stub(<crate::ticket::Ticket as PartialEq>::eq, crate::ticket::verif_eq::ticket_eq_words)]
-    #[kani::stub(alloc::alloc::dealloc, crate::stubs::dealloc_noop)]
-    #[kani::stub(<std::string::String as Clone>::clone, crate::stubs::string_clone_short)]
-    #[kani::stub(crate::history::RuleHistory::insert, crate::history::verif_insert_model::insert_model)]
-    #[kani::stub(<crate::blob::FileStateVec as Clone>::clone, crate::blob::verif::fsv_clone_small)]
-    fn step_rebuild_node_1t()
-    {
-        step_rebuild_phase_m(1);
-    }
-
-    #[kani::proof]
-    #[kani::unwind(4)]
-    #[kani::stub(crate::ticket::Ticket::human_readable, crate::ticket::verif::hr_stub)]
-    #[kani::stub(alloc::fmt::format, crate::stubs::format_stub)]
-    #[kani::stub(crate::system::util::get_timestamp, crate::symsys::get_timestamp_stub)]
-    #[kani::stub(<crate::ticket::Ticket as PartialEq>::eq, crate::ticket::verif_eq::ticket_eq_words)]
-    #[kani::stub(alloc::alloc::dealloc, crate::stubs::dealloc_noop)]
-    #[kani::stub(<std::string::String as Clone>::clone, crate::stubs::string_clone_short)]
-    #[kani::stub(crate::history::RuleHistory::insert, crate::history::verif_insert_model::insert_model)]
-    #[kani::stub(<crate::blob::FileStateVec as Clone>::clone, crate::blob::verif::fsv_clone_small)]
-    fn step_rebuild_node_2t()
-    {
-        step_rebuild_phase_m(2);
-    }
-
     /*  STEP: work::clean_targets from any pre-state under I1/I3. */
     fn step_clean(ntargets : usize)
     {
@@ -616,152 +479,7 @@ pub mod verif
         }
     }
 
-    /*  The no-rebuild tail of handle_rule_node: Blob::get_current_file_state_vec
-        on the blob that is then returned (and persisted as the file-state table). */
-    fn step_tail(ntargets : usize)
-    {
-        let mut raw = any_raw();
-        let pre = prestate::decode(&mut raw, ntargets, Clock::Distinct, false);
-        install(&pre);
-        let before = [fs().ws[0], fs().ws[1]];
-        let mut blob = blob_of(&pre);
-        let sys = SymSystem {};
-        let r = blob.get_current_file_state_vec(&sys);
-        let f = fs();
-        assert!(f.n_mutations == 0 && f.n_exec == 0, "[C02][C09] hashing the targets modified the file system");
-        let all_present = before[0].present && (ntargets < 2 || before[1].present);
-        match r
-        {
-            Ok(v) =>
-            {
-                kani::cover!(true, "tail Ok");
-                assert!(all_present, "[C04][C01] a missing target went unnoticed");
-                let mut i = 0;
-                while i < ntargets
-                {
-                    assert!(v.get_ticket(i) == ticket_of_content(before[i].content),
-                        "[C01][C03][C18] hash handed to dependents is not the hash of the target's content");
-                    i += 1;
-                }
-                std::mem::forget(v);
-            },
-            Err(GetFileStateError::FileNotFound(p)) =>
-            {
-                kani::cover!(true, "tail missing");
-                assert!(!all_present, "[C04] an existing target was reported missing");
-                let first_missing = if !before[0].present { 0u8 } else { 1u8 };
-                assert!(p.as_bytes().len() == 1 && p.as_bytes()[0] == b'a' + first_missing, "[C04] missing-target error does not name the missing file");
-                std::mem::forget(p);
-            },
-            Err(e) =>
-            {
-                assert!(false, "[C04] hashing targets failed with an unexpected error");
-                std::mem::forget(e);
-            },
-        }
-        assert_table_truthful(&blob, ntargets);
-        std::mem::forget(blob);
-    }
 
-    crate::step_harness!(step_tail_1t, 4, { step_tail(1); });
-    crate::step_harness!(step_tail_2t, 4, { step_tail(2); });
-
-    /*  The command-execution core of rebuild_node: to_command_script ->
-        execute_command -> to_command_line_input -> update_to_match_system_file_state,
-        called in rebuild_node's order (rebuild_node itself, with its history
-        insert and contradiction mapping, exhausts 45 GB in CBMC's
-        post-processing; see DESIGN). */
-    fn step_rebuild_core(ntargets : usize)
-    {
-        let mut raw = any_raw();
-        let pre = prestate::decode(&mut raw, ntargets, Clock::Distinct, false);
-        install(&pre);
-        let fail_code = raw.flag();
-        let spawn_error = raw.flag();
-        let omit0 = raw.flag();
-        let omit1 = raw.flag();
-        let first_line_fails = raw.flag();
-        fs().cmd.fail_code = fail_code;
-        fs().cmd.first_line_fails = first_line_fails;
-        fs().cmd.spawn_error = spawn_error;
-        fs().cmd.omit = [omit0, omit1 && ntargets == 2];
-        let before = [fs().ws[0], fs().ws[1]];
-        let other_before = fs().ws[2];
-        let mut blob = blob_of(&pre);
-        let mut sys = SymSystem {};
-        let out = to_command_line_input(sys.execute_command(to_command_script(vec![String::from("x")])));
-        let f = fs();
-        match out
-        {
-            Ok(o) =>
-            {
-                assert!(!fail_code && !spawn_error && !first_line_fails, "[C04] a command one of whose script lines exits non-zero (or cannot be started) was taken for a success");
-                std::mem::forget(o);
-            },
-            Err(WorkError::CommandExecutedButErrored) =>
-            {
-                kani::cover!(true, "non-zero exit");
-                assert!((fail_code || first_line_fails) && !spawn_error, "[C04] non-zero exit reported for a command that did not exit non-zero");
-                return;
-            },
-            Err(WorkError::CommandFailedToExecute(e)) =>
-            {
-                kani::cover!(true, "spawn error");
-                assert!(spawn_error, "[C04] spawn failure reported for a command that started");
-                std::mem::forget(e);
-                return;
-            },
-            Err(e) =>
-            {
-                assert!(false, "[C04] command outcome mapped to an unexpected error");
-                std::mem::forget(e);
-                return;
-            },
-        }
-        let r = blob.update_to_match_system_file_state(&sys);
-        assert!(f.n_renames == 0 && f.n_creates == 0 && f.n_chmods == 0, "[C08][C09] refreshing file states moved or created files");
-        assert!(f.ws[2] == other_before, "[C09] an out-of-scope file changed");
-        let present0 = f.ws[0].present;
-        let present1 = ntargets < 2 || f.ws[1].present;
-        match r
-        {
-            Ok(v) =>
-            {
-                kani::cover!(true, "rebuild core Ok");
-                assert!(present0 && present1, "[C04] a target the command did not produce went unnoticed");
-                let mut i = 0;
-                while i < ntargets
-                {
-                    assert!(v.get_ticket(i) == ticket_of_content(f.ws[i].content),
-                        "[C01][C03][C18] hash recorded after the command ran is not the hash of the target's content");
-                    let st = crate::blob::verif::blob_state(&blob, i);
-                    assert!(st.executable == f.ws[i].exec, "[C10] file-state table entry does not record the executable bit");
-                    assert!(st.timestamp == 1_000_000u64 * (f.ws[i].mtime as u64), "[C18] file-state table entry does not record the file's mtime");
-                    i += 1;
-                }
-                assert_table_truthful(&blob, ntargets);
-                std::mem::forget(v);
-            },
-            Err(GetCurrentFileInfoError::TargetFileNotFound(p, e)) =>
-            {
-                kani::cover!(true, "target not generated");
-                assert!(!(present0 && present1), "[C04] an existing target reported as not generated");
-                let first_missing = if !present0 { 0u8 } else { 1u8 };
-                assert!(p.as_bytes().len() == 1 && p.as_bytes()[0] == b'a' + first_missing, "[C04] 'target not generated' does not name the first missing target");
-                std::mem::forget(p);
-                std::mem::forget(e);
-            },
-            Err(e) =>
-            {
-                assert!(false, "[C04] refreshing file states failed with an unexpected error");
-                std::mem::forget(e);
-            },
-        }
-        std::mem::forget(blob);
-    }
-
-    crate::step_harness!(step_rebuild_core_1t, 4, { step_rebuild_core(1); });
-    crate::step_harness!(step_rebuild_core_2t, 4, { step_rebuild_core(2); });
 }
 
 
